@@ -53,7 +53,8 @@ def st_case(draw):
     occ = draw(st.sampled_from(OCCUPANTS))
     return {'fam': 'create', 'func': draw(st.sampled_from(CREATORS)), 'overwrite': draw(st.booleans()), 'occupant': occ,
             'foreign': draw(st.lists(st_foreign(occ == 'ragged'), max_size=3)) if occ in ('array', 'array-large', 'ragged', 'dir') else [],
-            'meta': draw(st.booleans()), 'newmeta': draw(st.booleans()), 'fail': draw(st.sampled_from([None, None, None] + FAILS[1:]))}
+            'meta': draw(st.booleans()), 'newmeta': draw(st.booleans()), 'fail': draw(st.sampled_from([None, None, None] + FAILS[1:])),
+            'owspell': draw(st.sampled_from([0, 0, 1, 2, 3]))}
 
 
 DARRNAMES = ['metadata.json', 'README.txt', 'arraydescription.json', 'arrayvalues.bin']
@@ -314,7 +315,10 @@ def _create(spec, path, parent, outside, occ, fnames, before_p, before_o, out, d
     tag = f'{func}:ow={ow}:{occ}'
     src = None
     want = None
-    kw = dict(overwrite=ow)
+    k_ = spec.get('owspell', 0)
+    kw = dict(overwrite=([True, 1, np.True_, np.bool_(1)] if ow else [False, 0, np.False_, np.bool_(0)])[k_ % 4])       # the flag, spelled as a bool / int / NumPy bool
+    if k_ % 4:
+        out.cls('overwrite-flag-spelling')
     try:
         if func in ('Array.copy', 'archive'):
             src = darr.asarray(os.path.join(d, 'src.darr'), np.arange(4, dtype='int16') * 3, metadata=newmd)
@@ -429,6 +433,8 @@ def grid():
                 yield {'fam': 'create', 'func': func, 'overwrite': ow, 'occupant': occ, 'meta': True, 'newmeta': fk != 'file',
                        'foreign': [{'kind': fk, 'where': where, 'n': 0}] if fk else []}
                 if not fk:
+                    for k_ in (1, 2, 3):        # overwrite given as 1 / np.True_ / np.bool_(1) (0 / np.False_ / np.bool_(0))
+                        yield {'fam': 'create', 'func': func, 'overwrite': ow, 'occupant': occ, 'meta': True, 'newmeta': True, 'foreign': [], 'owspell': k_}
                     break
     # every name derived from one of Darr's own (x.tmp, x~, x.bak, .x.swp, x.lock, x.new, x.old, tmpx, x.part, .x) next to every creator
     for func, occ, n in itertools.product(CREATORS, ['array', 'ragged'], range(40)):
